@@ -226,6 +226,7 @@ def main(argv=None):
 
     violations = []
     known_lines = []
+    und_notes = []
     # ---- failed obligations: known finding, or replay and report
     for (name, mode), items in sorted(failed.items()):
         kf = [k for k in known if k.get('obligation') == name and k.get('mode', mode) == mode]
@@ -290,6 +291,11 @@ def main(argv=None):
                     reproduced = fn
         if reproduced:
             violations.append("VIOLATION property=%s replay=%s obligation=%r mode=%s" % (prop, reproduced, name, mode))
+        elif items[0][0] is not None and items[0][0]['unsupported']:
+            # the unit left the supported subset on some path (e.g. a loop was restructured and its invariant is
+            # stale): an unreplayed failure there is UNDECIDED, not a violation
+            und_notes.append("%s [%s]: obligation %r failed without a replaying input while the unit is partly "
+                             "outside the supported subset" % (items[0][0]['name'], mode, name))
         else:
             if chosen is None:
                 chosen = os.path.join(rdir, "%s.json" % hashlib.sha1(("%s|%s" % (name, mode)).encode()).hexdigest()[:12])
@@ -303,7 +309,6 @@ def main(argv=None):
 
     # ---- undecided units: bounded stand-in on the real code
     bounded = dict(bounded_extra)
-    und_notes = []
     need_bounded = list(undecided_units)
     if tier == 'thorough':
         need_bounded = [r for r in results if not r['crash']]
